@@ -14,7 +14,8 @@ DECIDING = ["line_events", "includes_contract_evals"]
 RULE = (
     "enumeration of (scan string, file layout): scan in {*, N*, N, a-b either order, +-lists of <=K numbers/forward "
     "ranges ascending non-overlapping} with bounds 0..N+2; file = N records, every subset of positions blank "
-    "(thorough caps blanks per the tier table). A case is non-trivial when the denoted set contains at least one "
+    "(thorough caps blanks per the tier table); every 13th case is also run as a member of a two-member named-paths group through "
+    "collect_paths, collect_by_line, fast_forward_by_line and next_by_line. A case is non-trivial when the denoted set contains at least one "
     "non-blank record of the file; distinct = distinct (scan string, layout) pairs."
 )
 ASSUMPTIONS = ["a record is blank iff csv.reader yields [] for it", "records are two short ASCII cells, unique per line"]
@@ -171,6 +172,47 @@ def run_case(scan, ast, N, blanks, agg):
     return None
 
 
+GROUP_METHODS = ["collect_paths", "collect_by_line", "fast_forward_by_line", "next_by_line"]
+
+
+def run_group_case(scan, ast, N, blanks, agg):
+    """the same scan part as a member of a named-paths group, run serially and breadth-first (the breadth-first
+    runs read the file themselves and feed every member line by line)"""
+    from vfy import cps, env, hooks
+
+    cps.reset_sandbox()
+    cs = env.new_csvpaths()
+    rows = [[] if i in blanks else [f"r{i}", "x"] for i in range(N)]
+    cps.add_file(cs, "data", rows)
+    cs.paths_manager.add_named_paths(name="g", paths=[f'~ id: m0 ~ $[{scan}][push("ls", line_number())]', "~ id: m1 ~ $[*][yes()]"])
+    nonblank = [i for i in range(N) if i not in blanks]
+    exp = sorted(denoted(ast, N) & set(nonblank))
+    for method in GROUP_METHODS:
+        inst = env.new_csvpaths()
+        _CUR["ast"] = None  # the contract oracle knows one scan; the group has two members
+        with hooks.recording(agg) as rec:
+            lines, exc = cps.run_method(inst, method, "g", "data")
+        agg.count("group_runs")
+        w = {"member": f'$[{scan}][push("ls", line_number())]', "method": method, "N": N, "blanks": list(blanks), "expected_lines": exp}
+        if exc is not None:
+            w["exc"] = f"{type(exc).__name__}: {str(exc)[:200]}"
+            return "group-exception", w
+        res = inst.results_manager.get_named_results("g")
+        m0 = [r_ for r_ in res if r_.csvpath.identity == "m0"][0].csvpath
+        considered = [ev["pln"] for ev in rec.lines if ev["id"] == id(m0) and ev["considered"]]
+        problems = []
+        if considered != exp:
+            problems.append(("offered-to-matcher", considered, exp))
+        if list(m0.variables.get("ls", [])) != exp:
+            problems.append(("line_number()", list(m0.variables.get("ls", [])), exp))
+        if m0.scan_count != len(exp) or m0.match_count != len(exp):
+            problems.append(("scan_count/match_count", [m0.scan_count, m0.match_count], len(exp)))
+        if problems:
+            w["problems"] = problems
+            return "group:" + problems[0][0] + ":" + ("serial" if method in cps.SERIAL else "by_line"), w
+    return None
+
+
 def run_shard(spec, agg):
     from vfy import hooks
 
@@ -190,6 +232,8 @@ def run_shard(spec, agg):
                 if stride > 1 and (si + len(blanks) + N) % stride != 0 and "+" in scan:
                     continue
                 res = run_case(scan, ast, N, blanks, agg)
+                if res is None and (idx // nsh) % 13 == 0:
+                    res = run_group_case(scan, ast, N, blanks, agg)
                 shape = f"{scan}|{N}|{blanks}"
                 nontriv = bool(denoted(ast, N) - set(blanks))
                 if res is None:
@@ -207,6 +251,8 @@ def replay(case, agg):
     a = case["ast"]
     ast = ("all",) if a[0] == "all" else (("from", a[1]) if a[0] == "from" else ("set", frozenset(a[1])))
     res = run_case(case["scan"], ast, case["N"], tuple(case["blanks"]), agg)
+    if res is None:
+        res = run_group_case(case["scan"], ast, case["N"], tuple(case["blanks"]), agg)
     if res is None:
         agg.held("replay", True)
     else:
